@@ -105,7 +105,7 @@ func valueAlts(prog *Prog, fn *ssa.Function, k *keyer, v ssa.Value, want bool, e
 		}
 		return out
 	case *ssa.Call, *ssa.Extract:
-		if g, idx, args := helperBoolCall(prog, v, env); g != nil {
+		if g, idx, args := helperBoolCall(prog, v, env); g != nil && !isExportedAnchor(g) {
 			if alts := boolAlts(prog, g, idx, want, bindArgs(g, args, env), depth+1); alts != nil {
 				return alts
 			}
